@@ -637,12 +637,14 @@ func (vm *vm) run() {
 		if pc < 0 || pc >= len(vm.prg.code) {
 			break
 		}
+		vm.vtInstr()
 		vm.prg.code[pc].exec(vm)
 	}
 
 	if interrupted {
 		vm.interruptLock.Lock()
 		vm.vt("IntSeen", "")
+		vm.vt("IntLate", vm.vtLate())
 		v := &InterruptedError{
 			iface: vm.interruptVal,
 		}
